@@ -793,3 +793,80 @@ Definition step12 (q : q12) (a : action) : option q12 :=
   | _ => match todo12 q with [] => Some q | _ => None end
   end.
 Definition init12 : q12 := {| todo12 := []; next12 := None |}.
+
+(* ------------------------------------------------------------------ C09 *)
+(* The monitor keeps the app set as it must currently be: initially what the state machine was built with (stored
+   values restored into unset fields, Props/C09.v), updated by update_from_omaha (characterised in Props/C09.v) with the
+   result of every successful check and with the response of every successful ping, and by nothing else.  Every
+   request must carry, app by app, the current cohort and (when it pings) the current dates; the policy is always
+   shown the current app set; and right after a successful check's result / a successful ping's response every app is
+   written to storage with exactly its current persisted form, in order, followed by a commit, before anything else
+   happens (after a ping the new last-contact time is announced first, and a changed poll interval may be stored). *)
+Inductive ob9 := ObS | ObW (k v : bytes) | ObC.
+Record q9 := { cup9 : bool; in9 : bool; apps9 : list app; todo9 : list ob9 }.
+Definition cohort_eq_dec : forall a b : cohort, {a = b} + {a <> b}.
+Proof. repeat decide equality. Defined.
+Definition oN_eqb (a b : option N) : bool :=
+  match a, b with Some x, Some y => (x =? y)%N | None, None => true | _, _ => false end.
+Definition wa_current (apps : list app) (wa : wapp) : bool :=
+  existsb (fun a => bytes_eqb (a_id a) (wa_id wa)
+                    && (if cohort_eq_dec (wa_cohort wa) (a_cohort a) then true else false)
+                    && match wa_ping wa with
+                       | None => true
+                       | Some (ad, rd) => oN_eqb ad (a_uc a) && oN_eqb rd (a_uc a)
+                       end) apps.
+Definition req_current (apps : list app) (w : wire) : bool := forallb (wa_current apps) (ws_apps (w_sum w)).
+Definition writes9 (apps : list app) : list ob9 := map (fun a => ObW (a_id a) (persisted_json a)) apps ++ [ObC].
+Definition q9_set (q : q9) (i : bool) (apps : list app) (t : list ob9) : q9 :=
+  {| cup9 := cup9 q; in9 := i; apps9 := apps; todo9 := t |}.
+
+Definition step9 (q : q9) (a : action) : option q9 :=
+  match a with
+  | AClock _ | AMetric _ | ARequest _ _ | AReply _ _ | ATimer _ => Some q
+  | AEvent (EvSchedule _) =>
+      match todo9 q with ObS :: rest => Some (q9_set q (in9 q) (apps9 q) rest) | _ => Some q end
+  | AEvent (EvProtocol _) =>
+      match todo9 q with [] | ObS :: _ => Some q | _ => None end
+  | AStore op _ =>
+      match todo9 q with
+      | [] | ObS :: _ => Some q
+      | o :: rest =>
+          match op with
+          | SSetInt _ _ | SRemove _ => Some q
+          | SSetStr k v =>
+              match o with
+              | ObW k' v' => if bytes_eqb k k' && bytes_eqb v v' then Some (q9_set q (in9 q) (apps9 q) rest) else None
+              | _ => None
+              end
+          | SCommit => match o with ObC => Some (q9_set q (in9 q) (apps9 q) rest) | _ => None end
+          end
+      end
+  | _ =>
+      match todo9 q with
+      | _ :: _ => None
+      | [] =>
+          match a with
+          | AEvent (EvState (CheckingForUpdates _)) => Some (q9_set q true (apps9 q) [])
+          | AEvent (EvResult r) =>
+              let apps' := match r with inr rs => update_from_omaha (apps9 q) rs | inl _ => apps9 q end in
+              Some (q9_set q false apps' (writes9 apps'))
+          | AHttp w o =>
+              if req_current (apps9 q) w then
+                if in9 q then Some q
+                else match usable (cup9 q) (Some o) with
+                     | Some (BDoc d) =>
+                         let apps' := update_from_omaha (apps9 q) (make_app_responses d ANoUpdate) in
+                         Some (q9_set q false apps' (ObS :: writes9 apps'))
+                     | _ => Some q
+                     end
+              else None
+          | APolicy (QNextTime apps _ _) _ | APolicy (QCheckAllowed apps _ _ _) _ =>
+              if apps_eq_dec apps (apps9 q) then Some q else None
+          | _ => Some q
+          end
+      end
+  end.
+
+Definition init9 (cup : option N) (apps : list app) (st : storage) : q9 :=
+  {| cup9 := match cup with Some _ => true | None => false end; in9 := false;
+     apps9 := map (app_load (pend st)) apps; todo9 := [] |}.
